@@ -25,6 +25,10 @@ OkOf(S, op) ==
 FileClauses(S, f, fo, U) ==
   << <<"existsAsModel", fo.exists = (S.root[f] # 0)>>,
      <<"contentAsModel", All(fo.paths, LAMBDA r : r.content = ContentAt(S, f, r.p))>>,
+     \* the attributes a collection reads with are those it was created with (odd content numbers are created with
+     \* assembly "asm<c>" and metadata {content: c}, even ones with neither): nothing survives a re-creation
+     <<"attributesBelongToContent", All(fo.paths, LAMBDA r : r.content <= 0 \/
+          (r.asm = (IF r.content % 2 = 1 THEN r.content ELSE 0) /\ r.meta = (IF r.content % 2 = 1 THEN r.content ELSE 0)))>>,
      <<"recognitionAnswers", All(fo.paths, LAMBDA r : r.raised = "")>>,
      <<"recognitionAsModel", All(fo.paths, LAMBDA r : r.is_cooler = IsCoolerAt(S, f, r.p))>>,
      <<"listingAnswers", fo.listing_raised = "">>,
